@@ -656,9 +656,13 @@ class TaskPool:
             # Restore the outputs completed before the restart (there is no
             # task_outputs row for a task that has not yet completed any).
             if outputs_str:
-                for message in json.loads(outputs_str):
-                    itask.state.outputs.set_message_complete(message)
-                    self.data_store_mgr.delta_task_output(itask, message)
+                # {trigger: message} - match triggers, not messages (the DB
+                # may record forced completion rather than the message).
+                completed = json.loads(outputs_str)
+                for trigger, message, _ in list(itask.state.outputs):
+                    if trigger in completed:
+                        itask.state.outputs.set_message_complete(message)
+                        self.data_store_mgr.delta_task_output(itask, message)
 
             if platform_name and status != TASK_STATUS_WAITING:
                 itask.summary['platforms_used'][
